@@ -413,3 +413,15 @@ package cbe
 
 //@ func (*Encoder).OnError
 //@   ensures true
+
+// ---------------------------------------------------------------------------------------------
+// Reader: document size limit (C14)
+//@ func (*Reader).markBytesRead
+//@   requires _this.config != nil
+//@   modifies _this.bytesRead
+//@   panics _this.bytesRead + uint64(byteCount) > _this.config.Rules.MaxDocumentSizeBytes
+//@   ensures _this.bytesRead == old(_this.bytesRead) + uint64(byteCount)
+//@ func (*Reader).errorf
+//@   noreturn
+//@ func (*Reader).unexpectedError
+//@   noreturn
